@@ -395,6 +395,7 @@ def body(args, cfg, pid, tier, seed, driver, work, cmds, t0):
     traces_ok = 0
     out_hist = collections.Counter()
     if io is not None:
+        _known_sigs = {k["signature"] for k in load_known()[0] if k["property"] == pid}
         fails_by_case = collections.defaultdict(list)
         for f in fails:
             fails_by_case[f["case"]].append(f)
@@ -417,7 +418,9 @@ def body(args, cfg, pid, tier, seed, driver, work, cmds, t0):
                 seen.add(f["clause"])
                 findings.append({"signature": f"{pid}/{f['clause']}", "kind": "oracle", "clause": f["clause"], "case": c,
                                  "detail": f["msg"], "op": f["op"]})
-            if d is not None and not cf:
+            # a divergence is dropped only in favour of a property failure that will be reported in this
+            # run; failures suppressed by known-findings.txt (they fire on every run) must not hide it
+            if d is not None and not [f for f in cf if f"{pid}/{f['clause']}" not in _known_sigs]:
                 kind = c["ops"][d].split(" ")[0] if d < len(c["ops"]) else "len"
                 findings.append({"signature": f"{pid}/corr/{kind}", "kind": "diff", "clause": None, "case": c,
                                  "detail": f"op {d} `{c['ops'][d] if d < len(c['ops']) else ''}`: impl `{a[d] if d < len(a) else '<missing>'}` model `{b[d] if d < len(b) else '<missing>'}`", "op": d})
